@@ -80,7 +80,7 @@ def impl_loc_op(line):
     tk = Toks(line.split())
     op = tk.next()
     # g<op>: the same real-library call; the model driver answers it with the GENERATED kernels (Gen/Kernels.lean)
-    op = {"gp2r": "p2r", "gr2p": "r2p", "grelint": "relint"}.get(op, op)
+    op = {"gp2r": "p2r", "gr2p": "r2p", "grelint": "relint", "goptimize": "optimize", "goptcombine": "optcombine"}.get(op, op)
 
     def go():
         if op == "mk":
@@ -113,6 +113,16 @@ def impl_loc_op(line):
             b = parse_loc(tk)
             ms, fs = tk.bool(), tk.bool()
             return "ok " + b2s(a.has_overlap(b, match_strand=ms, full_span=fs))
+        if op == "gisov":
+            return "ok " + b2s(parse_loc(tk).is_overlapping)
+        if op == "ghasov":
+            a = parse_loc(tk)
+            b = parse_loc(tk)
+            return "ok " + b2s(a.has_overlap(b))
+        if op == "ggaplist":
+            # gap_list(); the model driver answers with the GENERATED pairwise loop (Gen.CompoundInterval_gap_list)
+            gs = parse_loc(tk).gap_list()
+            return "ok " + " ".join([str(len(gs))] + [f"{g.start} {g.end} {RSYM[g.strand]}" for g in gs])
         raise KeyError(op)
 
     return guarded(go)
